@@ -226,7 +226,10 @@ class C10(Check):
         plan["busy_first"] = []
         if plan["scanner"] == "identifiers" and rng.random() < 0.3:
             for _ in range(rng.choice([1, 2, 4])):
-                plan["busy_first"].append([rng.randrange(plan["start"], plan["end"] + 1), rng.choice([1, 2, 3, 3, 4, 6])])
+                did_ = rng.randrange(plan["start"], plan["end"] + 1)
+                if did_ == 0xF186 and scanned == 0x22:
+                    continue  # 22 F186 is also the scanner's own session read (--check-session): an ECU that stays busy there makes the scan give up, legitimately
+                plan["busy_first"].append([did_, rng.choice([1, 2, 3, 3, 4, 6])])
         plan["p_identifier"] = rng.choice([0.05, 0.3, 1.0])
         plan["p_format"] = rng.choice([0.3, 1.0])
         plan["tp"] = rng.choice([None, 0.05, 0.5])
